@@ -1369,7 +1369,9 @@ fn timeout_oracle(w: &DlWorld) -> Vec<(String, String)> {
             out.push((sig, expl));
         }
     };
-    if w.stop_fired.is_some() || w.sock.closed || w.sock.unlinked_sent.is_some() {
+    // (`sock.closed` is not an external cause here: the scripts of this leg never close the socket, so
+    // the flag only says that the harness saw the end of the runtime's own output - after it stopped)
+    if w.stop_fired.is_some() || w.sock.unlinked_sent.is_some() {
         return out;
     }
     let timeout_ms = 30_000u64;
@@ -1439,6 +1441,35 @@ pub fn run_timeouts_leg(ctx: &Ctx) {
         // a consumer that has closed only one of its two channels is still attached to one task
         scripts.push((kind, vec![(1, att(false)), (1, Step::DropRx), (0, Step::Lane(l1.clone())), (0, Step::Lane(l2.clone())), (0, w(11)), (2, att(true)), (1, Step::DropTx), (2, Step::DropTx), (0, w(11)), (0, w(5))], 2));
         scripts.push((kind, vec![(1, att(false)), (1, Step::DropTx), (0, w(11)), (2, att(true)), (1, Step::DropRx), (2, Step::DropRx), (0, Step::Lane(l1.clone())), (0, Step::Lane(l2.clone())), (0, w(11)), (0, w(5))], 2));
+        // the read task votes alone (its only consumer closed its receiving side; the task notices when
+        // the flush after the *next* event completes), the lane keeps talking - which re-arms the read
+        // task's countdown while its vote is outstanding - then the first consumer leaves entirely and a
+        // listen-only consumer attaches: the vote is withdrawn and nothing may be left armed
+        for sync2 in [false, true] {
+            scripts.push((
+                kind,
+                vec![
+                    (1, att(false)),
+                    (1, Step::DropRx),
+                    (0, Step::Lane(l1.clone())),
+                    (0, w(2)),
+                    (0, Step::Lane(l2.clone())),
+                    (0, w(11)),
+                    (0, Step::Lane(l1.clone())),
+                    (0, w(2)),
+                    (1, Step::DropTx),
+                    (0, w(2)),
+                    (2, att(sync2)),
+                    (2, Step::DropTx),
+                    (0, w(5)),
+                    (0, Step::Lane(l2.clone())),
+                    (0, w(2)),
+                    (0, w(4)),
+                    (0, Step::Lane(l1.clone())),
+                ],
+                2,
+            ));
+        }
         // nobody ever attaches / attaches after the runtime has gone
         scripts.push((kind, vec![(0, w(11)), (1, att(true))], 1));
         scripts.push((kind, vec![(0, w(6)), (0, w(6)), (1, att(false)), (1, Step::Cmd(c1.clone()))], 1));
